@@ -201,6 +201,7 @@ fn base_case(kind: KindTag, planner: PlannerTag) -> PlanCase {
         targets: vec![t],
         radius: 0.3,
         rng_sampler: false,
+        half: false,
     };
     PlanCase {
         space,
@@ -253,7 +254,9 @@ impl Prop for C08 {
             max_obst: 2,
             budget_scale: 0.2,
             p_marginal_start: 0.1,
-            bounds: BoundsMode::BoundedConvex,
+            // one case in ten plans in a space that cannot be sampled (unbounded R^n part): every
+            // draw fails inside the real space, not in the harness wrapper
+            bounds: if ch.prob(0.1) { BoundsMode::Any } else { BoundsMode::BoundedConvex },
             ..Default::default()
         };
         let mut c = gen_plan_case(ch, &prof);
